@@ -374,6 +374,7 @@ func (e *enc) call(st *State, c *ssa.CallCommon, ins ssa.Instruction, pos token.
 		// (errIs(result, t) follows from errIs(wrapped, t)); without %w nothing is known about the chain of
 		// the new error (it is NOT assumed to satisfy errors.Is for any sentinel).
 		if w, ok := errorfWrapped(c); ok {
+			e.note("fmt.Errorf: a %w verb keeps the errors.Is chain of the wrapped error (assumed of the standard library); nothing is assumed about errors built without %w")
 			e.declareFun("spec_errIs", "(Iface Iface) Bool")
 			e.assume(fmt.Sprintf("(forall ((et Iface)) (! (=> (spec_errIs %s et) (spec_errIs %s et)) :pattern ((spec_errIs %s et))))", e.val(w), results[0], results[0]))
 		}
